@@ -1696,8 +1696,13 @@ class HTMLDependency(MetadataNode):
 
         return Tag(
             "script",
-            # "</script>" in a script tag must be escaped
-            json.dumps(res, indent=indent).replace("</script>", "<\\/script>"),
+            # "</script" (in any letter case) in a script tag must be escaped
+            re.sub(
+                "</(script)",
+                lambda m: "<\\/" + m.group(1),
+                json.dumps(res, indent=indent),
+                flags=re.IGNORECASE,
+            ),
             type="application/json",
             data_html_dependency=True,
         )
